@@ -1,4 +1,5 @@
 import EmmyVerif.Model.TyCheck
+import EmmyVerif.Lemmas.TyUnion
 /-! Lemmas about the assignability model `TyM.checkGeneral`. -/
 namespace TyM
 open Ty
@@ -54,5 +55,124 @@ theorem checkGeneral_refl_prim (e : Env) (ip : List (Name × Ty)) (f lvl : Nat) 
 theorem checkGeneral_refl_lit (e : Env) (ip : List (Name × Ty)) (f lvl : Nat) (c : Lit) :
     checkGeneral e ip (f + 2) lvl (.lit c) (.lit c) = .ok := by
   cases c <;> simp [checkGeneral, isLikeAny, fastEq, escapeType, checkSimple, simpleDecide, Ty.isBoolean]
+
+end TyM
+
+namespace TyM
+open Ty
+
+/-- `Err(DonotCheck) => fall through` of `check_complex_type_compact` when the compact type is not a union -/
+def nd : Res → Res
+  | .donotCheck => .notMatch
+  | r => r
+
+@[simp] theorem nd_ok : nd .ok = .ok := rfl
+@[simp] theorem nd_recursion : nd .recursion = .recursion := rfl
+@[simp] theorem nd_notMatch : nd .notMatch = .notMatch := rfl
+
+/-- array against array: three hops (general → complex → array), then the element check one level down -/
+theorem checkGeneral_array_array (e : Env) (ip : List (Name × Ty)) (f lvl : Nat) (b cb : Ty) :
+    checkGeneral e ip (f + 3) lvl (.array b) (.array cb) =
+      nd (withNext lvl fun l => checkGeneral e ip f l (if e.arrayIndex then union e b tNil else b) cb) := by
+  generalize hr : (withNext lvl fun l => checkGeneral e ip f l (if e.arrayIndex = true then union e b tNil else b) cb) = r
+  unfold checkGeneral
+  simp only [isLikeAny, fastEq, escapeType]
+  unfold checkComplex
+  simp only
+  unfold checkArray
+  simp only [hr]
+  cases r <;> rfl
+
+/-- union expected, non-union given: two hops (general → complex), then the member scan -/
+theorem checkGeneral_union_src (e : Env) (ip : List (Name × Ty)) (f lvl : Nat) (ms : TyL) (c : Ty)
+    (h1 : isLikeAny c = false) (h2 : fastEq (.union ms) c = false) (h3 : escapeType e c = none)
+    (h4 : c.isUnion = false) :
+    checkGeneral e ip (f + 2) lvl (.union ms) c =
+      nd (anyOk (fun m => withNext lvl fun l => checkGeneral e ip f l m c) ms.toList) := by
+  generalize hr : (anyOk (fun m => withNext lvl fun l => checkGeneral e ip f l m c) ms.toList) = r
+  unfold checkGeneral
+  simp only [h1, h2, h3]
+  unfold checkComplex
+  cases c <;> simp_all [Ty.isUnion] <;> cases r <;> rfl
+
+end TyM
+
+namespace TyM
+open Ty
+
+theorem unionSpecial_nil (m s : Ty) (h1 : m ≠ tAny) (h2 : m ≠ tNever) : unionSpecial m s tNil = none := by
+  unfold unionSpecial
+  rw [if_neg h1, if_neg (by decide), if_neg h2, if_neg (by decide)]
+  simp [Ty.isIntConst, Ty.isNumber, Ty.isStrConst, Ty.isBoolean, Ty.boolConst?, Ty.isFuncConst]
+
+/-- `T | nil` for an array type `T` (strict array index turns the element type `b` into `b?`) -/
+theorem union_array_nil (e : Env) (b : Ty) : union e (.array b) tNil = Ty.mk [.array b, tNil] := by
+  have hp : Plain (.array b) := ⟨rfl, by simp, by simp⟩
+  have hn : Plain tNil := ⟨rfl, by decide, by decide⟩
+  have hne : (Ty.array b) ≠ tNil := by simp
+  have hs := unionSpecial_nil (.array b) (.array b) (by simp) (by simp)
+  simp only [union, getRealType_of_not_ref e (.array b) rfl, Option.getD_some, unionImpl, hs,
+    unionGeneric_plain _ _ _ hp hn, if_neg hne, fromVec_pair _ _ rfl rfl hne]
+  rw [canonicalize_mk [.array b, tNil] (by simp) (by simp [Ty.isUnion]) (by simp)]
+  rw [mkUnionVec_pair_l (.array b) rfl hne]
+
+/-- `k` nested arrays over `t` -/
+def arrN : Nat → Ty → Ty
+  | 0, t => t
+  | k + 1, t => .array (arrN k t)
+
+end TyM
+
+namespace TyM
+open Ty
+
+theorem withNext_lt (lvl : Nat) (k : Nat → Res) (h : lvl < maxLevel) : withNext lvl k = k (lvl + 1) := by
+  unfold withNext next
+  rw [if_neg (by omega)]
+
+theorem withNext_ge (lvl : Nat) (k : Nat → Res) (h : maxLevel ≤ lvl) : withNext lvl k = .recursion := by
+  unfold withNext next
+  rw [if_pos (by omega)]
+
+theorem union_string_nil (e : Env) : union e (.prim .string) tNil = Ty.mk [tNil, .prim .string] := by
+  simp only [union, getRealType_of_not_ref e (.prim .string) rfl, Option.getD_some]
+  decide
+
+/-- **the guard's error branch.** With strict array indexing every array nesting costs two levels
+(the element check and the scan of `element | nil`); past 100 levels the answer is `TypeRecursion`,
+for every environment: `string[]…[]` with 51 or more `[]` is not even assignable to itself. -/
+theorem check_deep_recursion (e : Env) (harr : e.arrayIndex = true) (ip : List (Name × Ty)) :
+    ∀ (k lvl f : Nat), lvl ≤ maxLevel → maxLevel < lvl + 2 * k → 5 * k ≤ f →
+      checkGeneral e ip (f + 3) lvl (arrN k (.prim .string)) (arrN k (.prim .string)) = .recursion := by
+  intro k
+  induction k with
+  | zero => intro lvl f h1 h2; omega
+  | succ k ih =>
+    intro lvl f h1 h2 h3
+    simp only [arrN]
+    rw [checkGeneral_array_array, harr, if_pos rfl]
+    by_cases hl : lvl = maxLevel
+    · rw [withNext_ge lvl _ (by omega)]; rfl
+    · rw [withNext_lt lvl _ (by omega)]
+      obtain ⟨g, rfl⟩ : ∃ g, f = g + 5 := ⟨f - 5, by omega⟩
+      cases k with
+      | zero =>
+        have hl99 : lvl + 1 = maxLevel := by unfold maxLevel at *; omega
+        simp only [arrN, union_string_nil]
+        rw [show g + 5 = (g + 3) + 2 from rfl,
+          checkGeneral_union_src e ip (g + 3) (lvl + 1) _ (.prim .string) rfl rfl rfl rfl]
+        simp only [TyL.toList_ofList, anyOk, withNext_ge (lvl + 1) _ (by omega)]
+        rfl
+      | succ k' =>
+        simp only [arrN, union_array_nil]
+        rw [show g + 5 = (g + 3) + 2 from rfl,
+          checkGeneral_union_src e ip (g + 3) (lvl + 1) _ (.array (arrN k' (.prim .string))) rfl rfl rfl rfl]
+        simp only [TyL.toList_ofList, anyOk]
+        by_cases hl2 : lvl + 1 = maxLevel
+        · rw [withNext_ge (lvl + 1) _ (by omega)]; rfl
+        · rw [withNext_lt (lvl + 1) _ (by unfold maxLevel at *; omega)]
+          have := ih (lvl + 1 + 1) g (by unfold maxLevel at *; omega) (by omega) (by omega)
+          simp only [arrN] at this
+          rw [this]; rfl
 
 end TyM
